@@ -256,6 +256,21 @@ def run_direct(j, cases):
                 j.tie(f"mmodel:{lines[i]}: {m}")
             elif c["modelled"] and c["op"] != "index":
                 j.tie(f"member:{lines[i]}: inside `modelled` but the model answers UNMODELLED")
+        # both runtimes implement every member: same result, same receiver afterwards, same interrupt (also where the
+        # member is outside the Lean model)
+        rv, rt = sides[i].get("VM", ""), sides[i].get("TREE", "")
+        def cmpkey(r):
+            # fatal errors are compared by kind (their texts are host-facing diagnostics and differ in wording between the
+            # libraries); values, receivers and catchable exceptions (whose message a program can read) are compared exactly
+            if r.startswith("INT class=fatal"):
+                return "fatal " + fields_of(r).get("kind", "")
+            return norm(r)
+        if ok_all and rv and rt and cmpkey(rv) != cmpkey(rt):
+            who = f"{c['rep']}.{c['member']}" if c["op"] != "index" else f"{c['rep']}[]"
+            j.violate(("cross-runtime", c["rep"], c["member"]), {"kind": "member", "line": lines[i], "vm": rv[:400], "tree": rt[:400]},
+                      f"{who} with {' '.join(G.sx(a) for a in c['args'])} on {G.sx(c['recv'])}: the VM runtime gives {norm(rv)[:120]}, "
+                      f"the interpreter runtime {norm(rt)[:120]}")
+            ok_all = False
         if ok_all:
             healthy.append((c, sides[i]))
         ctx.sample({"case": lines[i], "go": go[i][:300], "model_vm": model[2 * i][:200]})
